@@ -882,6 +882,22 @@ def _propagate(ctx, f, res: Result, selfp: T, tpar: T, mode: str):
             break
         if l.op != "sub":
             continue
+        dr = _dot_operands(r_)
+        if dr is not None and dr[1] is tpar and ok2 and \
+                any(dr[0] is y.data["result"] for y in rels) and \
+                l.args[0].op == "loopvar":
+            # one loop over the consecutive pairs (shape decided above):
+            # D_k is formed in place and multiplied onto what was appended
+            # last
+            if tm.is_const(l.args[1], -1):
+                ok4 = True
+            elif tm.is_const(l.args[1]):
+                ok4 = False
+                why4 = (f"accumulation at {e.where} always starts from the "
+                        f"fixed pose new[{l.args[1].args[1]}]")
+            else:
+                continue
+            break
         rp = seq_position(r_)
         if rp is None or not any(x is y.data["result"] for y in rels
                                  for x in rp[3].walk()):
